@@ -84,6 +84,16 @@ pub(crate) fn append_post(
             }
             obl!(f.static_untouched(), "append.static_untouched", "C10,C02");
             obl!(n == 0 || unsafe { *sp.add(pr.i) } == pr.b, "append.argument_untouched", "C02");
+            if unsafe { MV_CALLS } > 0 {
+                // insert_str under the memmove frame contract: the code moves exactly
+                // text[idx .. len) up by the length of the argument (-> verus/v_move.rs)
+                let tp = text_ptr(r, &h);
+                obl!(
+                    unsafe { MV_CALLS == 1 && MV_SRC == tp.add(idx) && MV_DST == tp.add(idx + n) && MV_COUNT == g.len - idx },
+                    "insert_str.memmove_moves_the_tail_up_by_the_argument_length",
+                    "C01"
+                );
+            }
             let need = g.len + n;
             let early = n == 0 && idx == g.len && !unsafe { IS_INSERT };
             if early {
@@ -592,8 +602,20 @@ fn push_str_mod_reach() {
 /// destination get the first and last byte of the source (so a text's final byte stays final). Used by the class-U frame harnesses
 /// (CBMC does not terminate on an intra-object memmove of symbolic object size; the byte-exact
 /// result of the move is proved with the real `ptr::copy` at concrete capacities, class B).
+/// arguments of the (single) memmove the code under test issued
+pub(crate) static mut MV_CALLS: usize = 0;
+pub(crate) static mut MV_SRC: *const u8 = core::ptr::null();
+pub(crate) static mut MV_DST: *const u8 = core::ptr::null();
+pub(crate) static mut MV_COUNT: usize = 0;
+
 pub(crate) unsafe fn copy_havoc<T>(src: *const T, dst: *mut T, count: usize) {
     let n = count * core::mem::size_of::<T>();
+    unsafe {
+        MV_CALLS += 1;
+        MV_SRC = src as *const u8;
+        MV_DST = dst as *const u8;
+        MV_COUNT = n;
+    }
     if n > 0 {
         unsafe {
             // memmove semantics for the two end bytes (read before anything is written) ...
@@ -657,6 +679,17 @@ pub(crate) fn remove_post(r: &Repr, f: &Frame, sp: &RemoveSpec, res: Result<char
             obl!(h.len == g.len - sp.w, "remove.len", "C01");
             obl!(h.kind == K_INLINE || (h.kind == K_HEAP && h.rc == 1), "remove.result_exclusive_and_writable", "C02,C10");
             obl!(f.static_untouched(), "remove.static_untouched", "C10,C02");
+            if unsafe { MV_CALLS } > 0 {
+                // the index arithmetic of the shift, for symbolic sizes: the code moves exactly
+                // text[idx + w .. len) down to idx (that this yields the String text is
+                // verus/v_move.rs, given memmove's documented semantics)
+                let tp = text_ptr(r, &h);
+                obl!(
+                    unsafe { MV_CALLS == 1 && MV_DST == tp.add(sp.idx) && MV_SRC == tp.add(sp.idx + sp.w) && MV_COUNT == g.len - sp.idx - sp.w },
+                    "remove.memmove_moves_the_tail_down_by_the_char_width",
+                    "C01"
+                );
+            }
             if content {
                 obl!(wf(r), "remove.wf", "C01,C03,C07,C20");
                 if g.len - sp.w > 0 {
